@@ -2,6 +2,7 @@ package rules
 
 import (
 	"fmt"
+	"go/token"
 	"go/types"
 	"sort"
 	"strings"
@@ -347,6 +348,41 @@ func c15(r *core.Report) {
 				r.Check(enc.Call.Args[1] == ssa.Value(mf.Params[0]), "C15-PAIR", c+" encoded value", p.Pos(enc.Pos()), "the encoded value is the channel id", "the encoded value is not the channel id")
 			}
 		}
+		// the codec is on every path: a return that bypasses the encoder (hand-rolled fast
+		// path) is accepted only in the one form that is provably the codec's own output:
+		// a single byte byte(c) under the guard c <= 127 (uvarint of a 7-bit value).
+		{
+			isEnc := func(in ssa.Instruction) bool { return in == ssa.Instruction(enc) }
+			reached := core.Reach(mf, nil, nil, isEnc)
+			okPath := true
+			why := ""
+			for _, ret := range core.Returns(mf) {
+				if !reached[ret] {
+					continue
+				}
+				if fam != "uvarint" || pair[0] != "varintMuxFunc" || !singleByteFastPath(mf, ret) {
+					okPath = false
+					why = "return at " + p.Pos(ret.Pos()) + " frames the message without going through the codec"
+				}
+			}
+			r.Check(okPath, "C15-PAIR", c+" encoder on every path", p.Pos(mf.Pos()), "every framed message is produced by the codec (or by its provably equal one-byte form)", why+": that path's framing is not what the decoder parses, so some channel ids are delivered to another channel or with a damaged payload")
+			isDec := func(in ssa.Instruction) bool { return in == ssa.Instruction(dec) }
+			reachedD := core.Reach(df, nil, nil, isDec)
+			okD := true
+			for _, ret := range core.Returns(df) {
+				if !reachedD[ret] {
+					continue
+				}
+				ei := len(ret.Results) - 1
+				for _, v := range core.ReturnValues(ret, ei) {
+					if core.IsNilConst(v) {
+						// fixed-width decoders check the length before decoding: an early error return is fine, an early success is not
+						okD = false
+					}
+				}
+			}
+			r.Check(okD, "C15-PAIR", c+" decoder on every path", p.Pos(df.Pos()), "every successful unframing goes through the codec", "the decoder can succeed on a path that bypasses the codec")
+		}
 		// payload appended unchanged after the header; decoder returns a suffix of its input
 		payOK := false
 		for _, ret := range core.Returns(mf) {
@@ -419,4 +455,63 @@ func hasOtherLoad(fn *ssa.Function) bool {
 		}
 	}
 	return false
+}
+
+// singleByteFastPath: the returned vector's header is the one-byte slice
+// {byte(c)} and the return is reachable only under c <= 127.
+func singleByteFastPath(mf *ssa.Function, ret *ssa.Return) bool {
+	c := ssa.Value(mf.Params[0])
+	cut := core.CutWhere(func(cond ssa.Value) int {
+		b, ok := cond.(*ssa.BinOp)
+		if !ok || b.X != c {
+			return 0
+		}
+		k, isK := core.ConstInt(b.Y)
+		if !isK {
+			return 0
+		}
+		switch b.Op {
+		case token.LSS:
+			if k <= 128 {
+				return 1
+			}
+		case token.LEQ:
+			if k <= 127 {
+				return 1
+			}
+		case token.GEQ:
+			if k <= 128 {
+				return -1
+			}
+		case token.GTR:
+			if k <= 127 {
+				return -1
+			}
+		}
+		return 0
+	})
+	if core.GuardEdges(mf, cut) == 0 || !core.GuardedFromEntry(mf, ret, cut) {
+		return false
+	}
+	// header: a [1]byte whose only element is convert(c)
+	ok := false
+	core.BackSlice(ret.Results[0], func(x ssa.Value) bool {
+		if a, isA := x.(*ssa.Alloc); isA {
+			if at, isArr := a.Type().(*types.Pointer).Elem().Underlying().(*types.Array); isArr && at.Len() == 1 {
+				if bt, isB := at.Elem().Underlying().(*types.Basic); isB && bt.Kind() == types.Byte {
+					for _, ref := range *a.Referrers() {
+						if ia, isIA := ref.(*ssa.IndexAddr); isIA {
+							for _, r2 := range *ia.Referrers() {
+								if st, isSt := r2.(*ssa.Store); isSt && core.Peel(st.Val) == c {
+									ok = true
+								}
+							}
+						}
+					}
+				}
+			}
+		}
+		return true
+	})
+	return ok
 }
